@@ -18,7 +18,7 @@
                                                 fld_*       (FromBytes / FromWideBytes)
      algebra/impl/fields/sqrt.go, pow.go        ts_sqrt                                     *)
 From Coq Require Import ZArith List Bool Lia.
-Require Import V.base.Fld V.model.CurveParams V.model.Curve.
+Require Import V.base.Fld V.model.CurveParams V.model.Curve V.gen.CodecConsts.
 Import ListNotations.
 Local Open Scope Z_scope.
 
@@ -69,11 +69,10 @@ Fixpoint ts_loop (p : Z) (k : nat) (s t z : Z) : Z :=
       end
   end.
 
-(* p - 1 = 2^e * m, m odd; progenitor exponent (m-1)/2 (the generated F?ProgenitorExp) *)
-Definition ts_progenitor (p : Z) (e : nat) : Z := ((p - 1) / 2 ^ Z.of_nat e - 1) / 2.
-
-Definition ts_sqrt (p : Z) (e : nat) (rou : Z) (x : Z) : option Z :=
-  let y := zp_pow p x (ts_progenitor p e) in
+(* [g] is the progenitor exponent, the generated constant F?ProgenitorExp = (m-1)/2 where
+   p - 1 = 2^e * m, m odd; [rou] = F?RootOfUnity, a primitive 2^e-th root of unity *)
+Definition ts_sqrt (p : Z) (e : nat) (g : Z) (rou : Z) (x : Z) : option Z :=
+  let y := zp_pow p x g in
   let s := mulm p y x in
   let t := mulm p s y in
   let r := ts_loop p e s t rou in
@@ -82,10 +81,10 @@ Definition ts_sqrt (p : Z) (e : nat) (rou : Z) (x : Z) : option Z :=
 (* ---- short Weierstrass codecs ----------------------------------------------------------- *)
 
 (* curve constants + what the field's Sqrt needs + coordinate size in bytes *)
-Record wcodec := mk_wcodec { wc : wparams; wc_e : nat; wc_rou : Z; wc_len : nat }.
+Record wcodec := mk_wcodec { wc : wparams; wc_e : nat; wc_g : Z; wc_rou : Z; wc_len : nat }.
 
 Definition wc_p (c : wcodec) := wp_p (wc c).
-Definition wc_sqrt (c : wcodec) (v : Z) : option Z := ts_sqrt (wc_p c) (wc_e c) (wc_rou c) v.
+Definition wc_sqrt (c : wcodec) (v : Z) : option Z := ts_sqrt (wc_p c) (wc_e c) (wc_g c) (wc_rou c) v.
 Definition wc_rhs (c : wcodec) (x : Z) : Z := w_rhs (wc_p c) (wp_a (wc c)) (wp_b (wc c)) x.
 
 Definition wpt := @wpoint Z.      (* None = identity, Some (x, y) affine *)
@@ -261,7 +260,7 @@ Definition blsg1_from_affine (c : wcodec) (x y : Z) : option wpt :=
 
 (* ---- twisted Edwards: edwards25519 ------------------------------------------------------- *)
 
-Record ecodec := mk_ecodec { ec : eparams; ec_e : nat; ec_rou : Z; ec_len : nat }.
+Record ecodec := mk_ecodec { ec : eparams; ec_e : nat; ec_g : Z; ec_rou : Z; ec_len : nat }.
 Definition ec_p (c : ecodec) := ep_p (ec c).
 Definition ept := (Z * Z)%type.
 Definition e_top (c : ecodec) : Z := 2 ^ (8 * Z.of_nat (ec_len c) - 1).
@@ -281,7 +280,7 @@ Definition e_from_y (c : ecodec) (y : Z) : option ept :=
   let num := subm p (1 mod p) yy in
   let den := subm p (ep_a (ec c)) (mulm p (ep_d (ec c)) yy) in
   if den =? 0 then None                                            (* Inv fails: ok1 = 0 *)
-  else match ts_sqrt p (ec_e c) (ec_rou c) (mulm p num (zp_inv p den)) with
+  else match ts_sqrt p (ec_e c) (ec_g c) (ec_rou c) (mulm p num (zp_inv p den)) with
        | None => None
        | Some x => Some (x, y)
        end.
@@ -439,18 +438,20 @@ Definition fld25519_from_wide (p : Z) (bs : list Z) : option Z :=
 
 (* ---- instances --------------------------------------------------------------------------- *)
 
+(* Tonelli–Shanks constants and coordinate sizes come from gen/CodecConsts.v, regenerated from the
+   field sources on every run *)
 Definition k256_codec : wcodec :=
-  mk_wcodec k256_params 1 (wp_p k256_params - 1) 32.
+  mk_wcodec k256_params k256_fp_e k256_fp_progenitor k256_fp_rou k256_fp_bytes.
 Definition p256_codec : wcodec :=
-  mk_wcodec p256_params 1 (wp_p p256_params - 1) 32.
+  mk_wcodec p256_params p256_fp_e p256_fp_progenitor p256_fp_rou p256_fp_bytes.
 Definition pallas_codec : wcodec :=
-  mk_wcodec pallas_params 32 0x2bce74deac30ebda362120830561f81aea322bf2b7bb7584bdad6fabd87ea32f 32.
+  mk_wcodec pallas_params pallas_fp_e pallas_fp_progenitor pallas_fp_rou pallas_fp_bytes.
 Definition vesta_codec : wcodec :=
-  mk_wcodec vesta_params 32 0x2de6a9b8746d3f589e5c4dfd492ae26e9bb97ea3c106f049a70e2c1102b6d05f 32.
+  mk_wcodec vesta_params vesta_fp_e vesta_fp_progenitor vesta_fp_rou vesta_fp_bytes.
 Definition blsg1_codec : wcodec :=
-  mk_wcodec bls12381g1_params 1 (bls12381_p - 1) 48.
+  mk_wcodec bls12381g1_params bls12381_fp_e bls12381_fp_progenitor bls12381_fp_rou bls12381_fp_bytes.
 Definition ed25519_codec : ecodec :=
-  mk_ecodec ed25519_params 2 0x2b8324804fc1df0b2b4d00993dfbd7a72f431806ad2fe478c4ee1b274a0ea0b0 32.
+  mk_ecodec ed25519_params ed25519_fp_e ed25519_fp_progenitor ed25519_fp_rou ed25519_fp_bytes.
 Definition curve25519_c : Z := mp_c curve25519_params.
 
 (* is b a square?  (Euler) — decides whether a point with x = 0 exists *)
